@@ -428,7 +428,24 @@ func (fx *FX) queryMode(o *Obligation, sliced bool) string {
 	}
 	// the string heap is declared lazily: drop its declaration when nothing else mentions sequences
 	src := fx.lines[:o.Prefix]
-	if sliced {
+	// cut points: hypotheses contributed by calls before the latest dominating cut are forgotten
+	cutIdx := -1
+	for _, c := range fx.cuts {
+		if c.idx <= o.Prefix && o.Block != nil && c.block != nil && (c.block == o.Block || c.block.Dominates(o.Block)) && c.idx > cutIdx {
+			cutIdx = c.idx
+		}
+	}
+	if cutIdx > 0 {
+		var kept []string
+		for i, l := range src {
+			if i < cutIdx && fx.lineMeta[i].droppable {
+				continue
+			}
+			kept = append(kept, l)
+		}
+		src = kept
+	}
+	if sliced && cutIdx <= 0 {
 		src = fx.slicedLines(o, goal.S+" "+o.Extra.S)
 	}
 	var kept []string
